@@ -309,6 +309,7 @@ func runBM25History(r *rand.Rand, nops int, allowReadd bool, t *Trace) *Case {
 				if pan {
 					code = 12
 				}
+				docids, k := docids, k // as they are at THIS execution (the builder may be re-configured later)
 				ops = append(ops, func(c *Case) {
 					c.N(4).N(len(qtoks))
 					for _, q := range qtoks {
@@ -335,6 +336,24 @@ func runBM25History(r *rand.Rand, nops int, allowReadd bool, t *Trace) *Case {
 				return code, res
 			}
 			code, res := run(true)
+			if code == 0 && r.Intn(4) == 0 {
+				// the SAME builder re-configured and executed again: another (or no) id restriction and
+				// another k, everything else as it was -- nothing of the first execution may linger
+				docids = nil
+				if r.Intn(3) != 0 {
+					for i := 0; i < 1+r.Intn(3); i++ {
+						if len(ever) > 0 && r.Intn(5) != 0 {
+							docids = append(docids, ever[r.Intn(len(ever))])
+						} else {
+							docids = append(docids, uint32(800+r.Intn(3)))
+						}
+					}
+				}
+				k = ks[r.Intn(len(ks))]
+				s = s.WithDocumentIDs(docids...).WithK(k)
+				run(false)
+				t.Stat("bm25.search_builder_reconfigured")
+			}
 			if r.Intn(6) == 0 {
 				heldRun = func() { run(false); t.Stat("bm25.search_builder_kept_across_history") }
 			}
